@@ -1,9 +1,10 @@
 SPECIFICATION Spec
 CONSTANTS
-  MaxN = 4
+  MaxN = 3
   M = 3
   MaxR = 1
   OnceSetup = TRUE
-INVARIANTS TypeOK Conservation SetupOnce EofComplete Ordered NoStall AllDone BlockedConsumerReleased NoopCloseStartsNothing
+  CloseOn = "exit"
+INVARIANTS TypeOK Conservation SetupOnce EofComplete Ordered NoStall AllDone BlockedConsumerReleased NoDeadlock NoopCloseStartsNothing
 PROPERTIES Settles LiveTerminates
 CHECK_DEADLOCK FALSE
